@@ -8,6 +8,7 @@ Pick == JsonDeserialize(IOEnv.VERIF_PICK)
 VARIABLES c, pc
 vars == <<c, pc>>
 Init == /\ c \in { [kind |-> "single", idx |-> Pick.entries[k], num |-> n] : k \in 1..Len(Pick.entries), n \in {1, 2} }
+                 \cup { [kind |-> "single", idx |-> Pick.digits[k][1], num |-> Pick.digits[k][2]] : k \in 1..Len(Pick.digits) }   \* a spelling that contains a digit, with that digit as the numeral ("2 m2")
                  \cup { [kind |-> "compound", idx |-> Pick.pairs[k], amt |-> a] : k \in 1..Len(Pick.pairs), a \in 1..Len(Amounts) }
         /\ pc = "gen"
 Emit == pc = "gen" /\ pc' = "done" /\ UNCHANGED c
